@@ -69,6 +69,7 @@ def units(tier, seed):
     us.append({'kind': 'selfalias', 'tier': tier, 'seed': seed})
     us.append({'kind': 'inplace', 'tier': tier, 'seed': seed})
     us.append({'kind': 'floordiv', 'tier': tier, 'seed': seed})
+    us.append({'kind': 'argwrite', 'tier': tier, 'seed': seed})
     progs = programs(tier)
     for i in range(0, len(progs), CHUNK_P):
         us.append({'kind': 'programs', 'progs': progs[i:i + CHUNK_P], 'tier': tier, 'seed': seed})
@@ -217,6 +218,41 @@ def check_program(prog, depth, seed, out, ops=None):
         if want('function') and not np.array_equal(inp.data if isinstance(inp, UTPM) else inp, s):
             fail('function(%s)' % kind, 'input modified')
             return
+    # every recorded node's pullback function called DIRECTLY (as the tracer does, but with seed objects that belong to the
+    # caller): seeds, arguments and results must come back untouched
+    if want('direct-pullback'):
+        for F in cg.functionList:
+            nm = getattr(F.func, '__name__', '')
+            if F.func == Function.Id or nm in ('__setitem__', 'setitem') or nm.startswith('__i'):
+                continue            # in-place operations own their operand
+            outs = F.x if isinstance(F.x, tuple) else (F.x,)
+            pb = getattr(UTPM, 'pb_' + nm, None)
+            if pb is None or not all(isinstance(o, UTPM) for o in outs):
+                continue
+            args, argsbar = [], []
+            for a in F.args:
+                if isinstance(a, Function):
+                    args.append(a.x)
+                    argsbar.append(a.x.zeros_like() if isinstance(a.x, UTPM) else (np.zeros_like(a.x) if isinstance(a.x, np.ndarray) else None))
+                else:
+                    args.append(a)
+                    argsbar.append(None)
+            seeds = [UTPM(AD.dense(o.data.shape, seed, 50 + k)) for k, o in enumerate(outs)]
+            objs = [('seed', sd) for sd in seeds] + [('argument', a) for a in args if isinstance(a, (UTPM, np.ndarray))] + [('result', o) for o in outs]
+            snaps = [np.array(o.data if isinstance(o, UTPM) else o, copy=True) for _, o in objs]
+            kw = {'out': list(argsbar)}
+            kw.update(F.kwargs)
+            try:
+                pb(*(seeds + args + list(outs)), **kw)
+            except Exception:
+                continue
+            out['evals'] += 1
+            out['keys'].append(ps + '|direct-pullback|' + nm)
+            for (role, o), sn in zip(objs, snaps):
+                if not np.array_equal(o.data if isinstance(o, UTPM) else o, sn, equal_nan=True):
+                    out['fails'].append({'sig': 'C14|direct pullback pb_%s|%s modified' % (nm, role), 'case': dict(case, op='direct-pullback'), 'detail': {'function': nm},
+                                         'attribs': []})
+                    break
     # reverse sweep: seed and forward input untouched
     xin = UTPM(PR.curve(seed + 2, 3, 2))
     sin_ = xin.data.copy()
@@ -292,6 +328,69 @@ def check_program(prog, depth, seed, out, ops=None):
     Function.cgraph = None
 
 
+def run_argwrite(u, out):
+    """programs that write into their own argument: a DRIVER is asked for derivatives at a point; the array holding the
+    point belongs to the caller - it must be unchanged afterwards, and a second call with the same array must give the
+    same answer as the first one and as a call with a fresh copy"""
+    seed = u['seed']
+    for name, prog in PR.ARG_WRITING.items():
+        for reckind in ('nd', 'utpm'):
+            pt0 = np.array(PR.POINTS[1], dtype=float)
+            x0 = np.array(PR.POINTS[3], dtype=float) if reckind == 'nd' else UTPM(PR.curve(seed, 2, 2, pts=(3, 2, 1)))
+            Function.cgraph = None
+            try:
+                cg, x, y = PR.record(prog, x0)
+            except Exception as ex:
+                Function.cgraph = None
+                out['counters']['untraceable'] = out['counters'].get('untraceable', 0) + 1
+                continue
+            oshape = y.x.shape if hasattr(y.x, 'shape') else ()
+            M = int(np.prod(oshape, dtype=int))
+            v = np.arange(1.0, PR.NX + 1) / 4.0
+            w = np.arange(1.0, M + 1) / 2.0
+            calls = [('jac_vec', lambda p: cg.jac_vec(p, v)), ('function', lambda p: cg.function([p])[0])]
+            if len(oshape) <= 1:
+                calls += [('jacobian', lambda p: cg.jacobian(p)), ('vec_jac', lambda p: cg.vec_jac(w, p)), ('vec_hess', lambda p: cg.vec_hess(w, p)),
+                          ('vec_hess_vec', lambda p: cg.vec_hess_vec(w, p, v))]
+            if oshape == ():
+                calls += [('gradient', lambda p: cg.gradient(p)), ('gradient_list', lambda p: cg.gradient([p])[0]), ('hessian', lambda p: cg.hessian(p)),
+                          ('hess_vec', lambda p: cg.hess_vec(p, v))]
+            for nm, fcall in calls:
+                case = {'kind': 'argwrite', 'name': name, 'reckind': reckind, 'driver': nm, 'seed': seed}
+                for form in ('contiguous', 'strided view'):
+                    if form == 'contiguous':
+                        pt = pt0.copy()
+                    else:
+                        big = np.zeros(2 * PR.NX)
+                        big[::2] = pt0
+                        pt = big[::2]
+                    try:
+                        r1 = np.array(fcall(pt), dtype=float, copy=True)
+                        changed = not np.array_equal(pt, pt0)
+                        r2 = np.array(fcall(pt), dtype=float, copy=True)
+                        r3 = np.array(fcall(pt0.copy()), dtype=float, copy=True)
+                    except Exception as ex:
+                        out['counters']['argwrite_raises'] = out['counters'].get('argwrite_raises', 0) + 1
+                        break
+                    out['evals'] += 1
+                    out['keys'].append('argwrite|%s|%s|%s|%s' % (name, reckind, nm, form))
+                    if nm == 'function':
+                        # evaluating the program itself on the caller's array performs the program's own write: only
+                        # the value is judged
+                        if not np.allclose(r1, r3, rtol=1e-13, atol=0):
+                            out['fails'].append({'sig': 'C14|argument-writing program|%s|value depends on the array object' % nm, 'case': dict(case, form=form), 'detail': {}})
+                        continue
+                    if changed:
+                        out['fails'].append({'sig': 'C14|argument-writing program|%s|point array of the caller modified' % nm, 'case': dict(case, form=form),
+                                             'detail': {'before': pt0[:4].tolist(), 'after': np.asarray(pt)[:4].tolist()}})
+                        break
+                    if not (np.allclose(r1, r2, rtol=1e-13, atol=0) and np.allclose(r1, r3, rtol=1e-13, atol=0)):
+                        out['fails'].append({'sig': 'C14|argument-writing program|%s|second call with the same array differs' % nm, 'case': dict(case, form=form), 'detail': {}})
+                        break
+            Function.cgraph = None
+    out['samples'] = [{'argument_writing_programs': sorted(PR.ARG_WRITING)}]
+
+
 def run_unit(u):
     out = {'evals': 0, 'keys': [], 'fails': [], 'samples': [], 'counters': {}}
     if u['kind'] == 'entries':
@@ -305,6 +404,8 @@ def run_unit(u):
         run_selfalias(u, out)
     elif u['kind'] == 'floordiv':
         run_floordiv(u, out)
+    elif u['kind'] == 'argwrite':
+        run_argwrite(u, out)
     elif u['kind'] == 'inplace':
         o2 = {'evals': 0, 'nontrivial': 0, 'fails': [], 'samples': [], 'counters': {}}
         C02.run_alias({'tier': u['tier']}, o2)
@@ -329,6 +430,9 @@ def replay(case):
         return [f for f in out['fails'] if f['case']['op'] == case['op'] and f['case']['D'] == case['D'] and f['case']['P'] == case['P']]
     if case['kind'] == 'inplace':
         return C02.replay(dict(case, kind='alias'))
+    if case['kind'] == 'argwrite':
+        run_argwrite({'seed': case.get('seed', 0)}, out)
+        return [f for f in out['fails'] if all(f['case'].get(k) == case.get(k) for k in ('name', 'reckind', 'driver', 'form'))]
     if case['kind'] == 'floordiv':
         run_floordiv({}, out)
         return [f for f in out['fails'] if f['case']['D'] == case['D'] and f['case']['P'] == case['P'] and f['case']['zero_dirs'] == case['zero_dirs']]
